@@ -178,3 +178,32 @@ class RegHost(object):
 
     def give(self, label):
         return RegHost.pool[label]
+
+
+@server.expose
+class Streamer(object):
+    """returns iterators/generators described by a kind string; counts what was pulled from each"""
+    def __init__(self):
+        self.pulled = {}
+
+    def stream(self, kind, tag):
+        self.pulled[tag] = 0
+        if kind == "empty":
+            return self._gen(tag, [])
+        if kind == "three":
+            return self._gen(tag, ["%s-0" % tag, "%s-1" % tag, "%s-2" % tag])
+        if kind == "raises1":
+            return self._gen(tag, ["%s-0" % tag, ValueError("gen-failure-%s" % tag), "%s-2" % tag])
+        if kind == "plainiter":
+            return iter(["%s-0" % tag, "%s-1" % tag])
+        raise ValueError(kind)
+
+    def _gen(self, tag, items):
+        for it in items:
+            self.pulled[tag] += 1
+            if isinstance(it, Exception):
+                raise it
+            yield it
+
+    def ping(self):
+        return "pong"
